@@ -56,7 +56,7 @@ def run():
     })
     c.rule = ("R1: for every picture <= 2x3 cells over a 4-cell alphabet and every encoding the format documents allow (IDF: any mix of literal words and repeat triples with the "
               "escape word always escaped; Tundra: colour/position records wherever allowed) the decoders of BinLike.tla read the picture, palette and font back; XBin via MC_XBin. "
-              "R2/R3: one source picture per configuration enumerated by TLC from Gen_BinFmt (XBin: palette?/font?/512?/compress?/ice? x font heights 1/8/16/32 legal per HeaderLegal, sizes 1x1..80x25; BIN modes x widths 2/80/160/510; ADF heights 1/24/25/26/201; IDF widths 1/79/80 x heights 1/24/25/26/200 x compress; Tundra widths x colour counts) plus seeded source pictures strictly inside each format's representable set (XBin blink/ice, 1-2 fonts of height 1..32, 6-bit palettes, compressed or not, widths 1..4096, heights 1..200; "
+              "R2/R3: one source picture per configuration enumerated by TLC from Gen_BinFmt (XBin: palette?/font?/512?/compress?/ice? x font heights 1/8/16/32 legal per HeaderLegal, sizes 1x1..80x25; BIN modes x widths 2/80/160/510; ADF heights 1/24/25/26/201; IDF widths 1/79/80 x heights 1/24/25/26/200 x compress; Tundra widths x colour counts) plus seeded source pictures strictly inside each format's representable set (XBin blink/ice, 1-2 fonts of height 1..32, 6-bit palettes, compressed or not, widths 1..4096, heights 1..200, directed rows of 62..66 / 127..129 cells with all-different neighbours followed by a pair sharing attribute / character around the 64-cell run cap; "
               "BIN even widths 2..510 with SAUCE; ADF width 80; IDF widths 1..80; Tundra with SAUCE, 24-bit colours, no blink) are saved with lossles_output and reloaded; "
               "Trace_BinFmt judges SizeEq, CharEq (incl. font page), ColourEq (displayed RGB, blank/solid glyphs excepted, 6-bit reduction for 6-bit formats), BlinkEq, ModeEq, FontEq, PaletteEq; "
               "second half: own files and mutated files that still load are loaded, saved, loaded again and judged by the same relation. The spec decoders re-read the written bytes "
